@@ -280,6 +280,9 @@ fn apply_patch(sp: &SProblem, sol: &Value, m: &Value) -> (SProblem, Value) {
 }
 
 fn exec(case: &Value) -> Value {
+    if case["k"] == "transit" {
+        return exec_transit(case);
+    }
     let sp: SProblem = serde_json::from_value(case["sp"].clone()).expect("sp");
     let ctx = match make_ctx(&sp) {
         Ok(c) => c,
@@ -1684,7 +1687,101 @@ fn gen_cases(rng: &mut Rng, tier: Tier) -> Vec<Value> {
         eprintln!("skipped: {skipped:?}");
         eprintln!("clean splits: {clean_count:?}; dropped candidates: {clean_why:?}");
     }
+    // fourth stream: tours with TRANSIT stops (a required break taken on the road). Outside the checker model; judged by the
+    // breach clause only: where the checker accepts the solver's document, it rejects the document with the arrival at the
+    // transit stop moved inside the break
+    let n_transit = if tier == Tier::Thorough { 400 } else { 64 };
+    let mut found = 0;
+    let mut tries = 0;
+    while found < n_transit && tries < n_transit * 12 {
+        tries += 1;
+        if let Some(c) = transit_case(rng) {
+            cases.push(c);
+            found += 1;
+        }
+    }
     cases
+}
+
+/// a generated problem with one required break per shift, solved; kept when some tour takes the break on the road
+fn transit_case(rng: &mut Rng) -> Option<Value> {
+    let mut cfg = GenCfg::basic();
+    cfg.metric = true;
+    cfg.jobs = (5, 10);
+    cfg.types = (1, 2);
+    cfg.vehicles_per_type = (1, 2);
+    cfg.time_windows = rng.chance(1, 2);
+    let sp = gen_problem(rng, &cfg);
+    let (mut pj, mj) = sp.to_pragmatic();
+    for (vt, v) in pj["fleet"]["vehicles"].as_array_mut()?.iter_mut().zip(sp.vehicles.iter()) {
+        for (shift, s) in vt["shifts"].as_array_mut()?.iter_mut().zip(v.shifts.iter()) {
+            let at = s.start_earliest + rng.range(30, 500);
+            let dur = rng.range(10, 60);
+            if s.end.as_ref().is_none_or(|e| at + dur <= e.latest) {
+                shift["breaks"] = json!([{"time": {"earliest": ts(at), "latest": ts(at)}, "duration": dur as f64}]);
+            }
+        }
+    }
+    let (p2, m2) = (pj.clone(), mj.clone());
+    let doc = isolated(1, move || {
+        let problem = read_pragmatic_json(&p2, &m2).ok()?;
+        std::panic::catch_unwind(std::panic::AssertUnwindSafe(|| solve_default(problem, quiet_env(), 5))).ok()?.ok().map(|x| x.1)
+    })
+    .ok()
+    .flatten()?;
+    let mut muts = vec![];
+    for (ti, t) in doc["tours"].as_array()?.iter().enumerate() {
+        for (si, st) in t["stops"].as_array()?.iter().enumerate() {
+            if st.get("location").is_none() {
+                let (a, d) = (parse_ts(st["time"]["arrival"].as_str()?)?, parse_ts(st["time"]["departure"].as_str()?)?);
+                if d - a >= 2 {
+                    for shift in [1, (d - a) / 2, d - a - 1] {
+                        let mut m = doc.clone();
+                        m["tours"][ti]["stops"][si]["time"]["arrival"] = json!(ts(a + shift));
+                        muts.push(json!({"cls": "transit_arrival_shift", "doc": m}));
+                    }
+                }
+            }
+        }
+    }
+    if muts.is_empty() {
+        return None;
+    }
+    Some(json!({"k": "transit", "problem": pj, "matrices": mj, "doc": doc, "muts": muts}))
+}
+
+fn exec_transit(case: &Value) -> Value {
+    use vrp_pragmatic::format::problem::PragmaticProblem;
+    let pj = serde_json::to_string(&case["problem"]).unwrap();
+    let ms: Vec<String> = case["matrices"].as_array().unwrap().iter().map(|m| serde_json::to_string(m).unwrap()).collect();
+    let core = match (pj.clone(), ms.clone()).read_pragmatic() {
+        Ok(p) => Arc::new(p),
+        Err(_) => return json!({"invalid_problem": true}),
+    };
+    let matrices: Vec<Matrix> = ms.iter().map(|m| deserialize_matrix(BufReader::new(m.as_bytes())).expect("matrix")).collect();
+    let check = |doc: &Value| -> Value {
+        let r = std::panic::catch_unwind(std::panic::AssertUnwindSafe(|| {
+            let api = deserialize_problem(BufReader::new(pj.as_bytes())).expect("api problem");
+            let solution = match deserialize_solution(BufReader::new(serde_json::to_string(doc).unwrap().as_bytes())) {
+                Ok(s) => s,
+                Err(_) => return vec!["undeserializable".to_string()],
+            };
+            match CheckerContext::new(core.clone(), api, Some(matrices.clone()), solution).and_then(|c| c.check()) {
+                Ok(()) => vec![],
+                Err(errs) => {
+                    let set: BTreeSet<String> = errs.iter().map(|e| code_of(&e.to_string()).to_string()).collect();
+                    set.into_iter().collect()
+                }
+            }
+        }));
+        match r {
+            Ok(codes) => json!(codes),
+            Err(_) => json!(["panic"]),
+        }
+    };
+    let base = check(&case["doc"]);
+    let muts: Vec<Value> = case["muts"].as_array().unwrap().iter().map(|m| check(&m["doc"])).collect();
+    json!({"base": base, "muts": muts})
 }
 
 #[allow(dead_code)]
